@@ -563,6 +563,18 @@ func StoreThenWalk(seed uint64) *Case {
 		b.Emit(isa.Inst{Op: isa.ADDI, Rd: w, Rs1: w, Imm: int32(stride)})
 		b.Emit(isa.Inst{Op: isa.ADDI, Rd: c, Rs1: c, Imm: -1})
 		b.Emit(isa.Inst{Op: isa.BNEZ, Rs1: c, Label: top})
+		if r.Chance(1, 3) {
+			// read the stored lines back right after the walk (or a few
+			// instructions later): the data may be anywhere between L1 and memory
+			for k := r.Intn(4); k > 0; k-- {
+				b.Emit(isa.Inst{Op: isa.ADDI, Rd: scratchRegs[2], Rs1: scratchRegs[2], Imm: 1})
+			}
+			for _, in := range append([]isa.Inst(nil), b.Prog.Insts[:nst]...) {
+				lop := map[isa.Op]isa.Op{isa.SW: isa.LW, isa.SH: isa.LH, isa.SB: isa.LB}[in.Op]
+				b.Emit(isa.Inst{Op: lop, Rd: scratchRegs[0], Rs1: isa.Zero, Imm: in.Imm})
+			}
+			b.Tag("store-walk-reload")
+		}
 		if r.Bool() {
 			b.Emit(isa.Inst{Op: isa.RET})
 		}
